@@ -30,6 +30,32 @@ def K(pid, crate, harness, tier="quick", mem_gb=4, timeout_s=900, bounds="", uni
     return e
 
 
+def Q(pid, query, tier="quick", bounds="", units=(), expect="pass", replay_body=None, **kw):
+    e = dict(id=query, property=pid, engine="smt", query=query, tier=tier, mem_gb=2, timeout_s=400, bounds=bounds,
+             units=list(units), expect=expect, replay_body=replay_body)
+    e.update(kw)
+    _E.append(e)
+    return e
+
+
+# ------------------------------------------------------------------------------------------------
+# Engine M queries (C03, C10, C13)
+# ------------------------------------------------------------------------------------------------
+Q("C03", "c03_interpolation", units=["rln::protocol::compute_id_secret"],
+  bounds="all (a0, a1, x1, x2) over ANY field (uninterpreted sort with the field axioms), x1 != x2; no size bound; decided by cvc5 (z3 4.8.12 times out on the quantified axioms)")
+Q("C03", "c03_degenerate_panics", units=["rln::protocol::compute_id_secret"],
+  bounds="all (x, y1, y2): identical x in both shares — is any non-error outcome (a panic or Ok) possible?", replay_body="scn_degenerate_shares")
+Q("C10", "c10_leaf_roundtrip", units=["rln::utils::fr_to_bytes_le", "rln::utils::bytes_le_to_fr", "rln::utils::fr_byte_size"],
+  bounds="all field elements x in [0, p): integer encoding with library contracts (num-bigint from/to_bytes_le, ark-ff From/Into<BigUint>, Vec::resize)")
+Q("C10", "c10_decode_contract", units=["rln::utils::bytes_le_to_fr", "rln::utils::fr_byte_size"],
+  bounds="all byte strings of any length (first 32 bytes symbolic): panics iff shorter than 32, else (LE value mod p, 32) — the contract the Kani stubs rely on")
+Q("C10", "c10_normalize_usize", units=["rln::utils::normalize_usize"], bounds="all 64-bit usize values")
+Q("C13", "c13_noncanonical_alias", units=["rln::utils::bytes_le_to_fr", "rln::utils::fr_to_bytes_le"], expect="known",
+  bounds="all 32-byte strings b: does decode-then-encode return b? (sat = a second accepted encoding exists)",
+  replay_body="scn_noncanonical_alias", tape_from_model=lambda m: [[m["b%d" % i]] for i in range(32)],
+  violation_text="a 32-byte string decodes to a field element whose canonical encoding differs (non-canonical alias accepted)")
+
+
 # ------------------------------------------------------------------------------------------------
 # C19 — witness-graph operators
 # ------------------------------------------------------------------------------------------------
